@@ -62,6 +62,9 @@ impl ExternalDevice for RegDev {
     fn poll_interrupt(&mut self) -> Option<Interrupt> { None }
 }
 
+thread_local! { pub static PAIR_TAG: std::cell::RefCell<String> = std::cell::RefCell::new("none".to_string()); }
+pub fn set_pair_tag(t: &str) { PAIR_TAG.with(|p| *p.borrow_mut() = t.to_string()); }
+
 pub struct Flags { pub strict: bool, pub real: bool, pub dbg: bool, pub ignp: bool }
 impl Flags {
     pub fn json(&self) -> Value {
@@ -118,9 +121,9 @@ impl M {
             if m.shadow[a] != fill {
                 let s = a;
                 let mut ws = vec![];
-                // allow gaps of < 4 fill words inside a segment
+                // maximal runs of non-fill words
                 let mut gap = 0;
-                while a < 65536 && gap < 4 {
+                while a < 65536 && gap < 1 {
                     if m.shadow[a] == fill { gap += 1 } else { gap = 0 }
                     ws.push(w(m.shadow[a]));
                     a += 1;
@@ -138,7 +141,8 @@ impl M {
         };
         let p = m.proj_with(false);
         out.emit(json!({
-            "ev": "New", "run": run, "flags": Flags::of(&flags).json(), "init": init,
+            "ev": "New", "run": run, "pair": PAIR_TAG.with(|p| p.borrow().clone()),
+            "flags": Flags::of(&flags).json(), "init": init,
             "fill": w(fill), "segs": segs, "devs": m.devs,
             "ports": [[0xFE00, 1], [0xFE02, 1], [0xFE04, 2], [0xFE06, 2]],
             "ireg": [[0xFFFC, "PSR"], [0xFFFE, "MCR"]],
@@ -146,6 +150,50 @@ impl M {
             "proj": p,
         }));
         m
+    }
+
+    /// Emits the `Os` record: the blocks of the built-in OS object file.
+    pub fn emit_os(out: &mut Out) {
+        let os = lc3_ensemble::sim::_os_obj_file();
+        let blocks: Vec<Value> = os.verif_block_iter().map(|(s, ws)| json!({"s": s,
+            "w": ws.iter().map(|x| x.map(|v| v as i64).unwrap_or(-1)).collect::<Vec<_>>()})).collect();
+        out.emit(json!({"ev": "Os", "blocks": blocks}));
+    }
+
+    /// `Simulator::reset`; logs whether the MCR handle is still the same Arc.
+    pub fn reset(&mut self, out: &mut Out) {
+        let mcr_before = self.sim.mcr().clone();
+        let nbp = self.sim.breakpoints.len();
+        match js::guard(|| self.sim.reset()) {
+            Err(()) => self.panic(out, "reset"),
+            Ok(()) => {
+                let same = Arc::ptr_eq(&mcr_before, self.sim.mcr());
+                let draws: Vec<u32> = self.timers.iter().map(|t| t.read().unwrap().get_remaining()).collect();
+                let nbp2 = self.sim.breakpoints.len();
+                self.host(out, json!({"op": "reset", "mcr_same": same as u8, "draws": draws, "bp_before": nbp, "bp_after": nbp2}))
+            }
+        }
+    }
+    pub fn add_breakpoint_pc(&mut self, out: &mut Out, pc: u16) {
+        self.sim.breakpoints.insert(lc3_ensemble::sim::debug::Breakpoint::PC(pc));
+        self.host(out, json!({"op": "addbp", "k": "pc", "v": pc}));
+    }
+    pub fn set_mcr(&mut self, out: &mut Out, v: bool) {
+        self.sim.mcr().store(v, std::sync::atomic::Ordering::Relaxed);
+        self.host(out, json!({"op": "setmcr", "v": v as u8}));
+    }
+    pub fn timer_enable(&mut self, out: &mut Out, slot: usize, en: bool) {
+        self.timers[slot - 1].write().unwrap().enabled = en;
+        self.host(out, json!({"op": "timeren", "slot": slot, "en": en as u8}));
+    }
+    pub fn remove_device(&mut self, out: &mut Out, id: u16) {
+        self.sim.device_handler.remove_device(id);
+        self.host(out, json!({"op": "rmdev", "id": id}));
+    }
+
+    /// Bring the shadow memory up to date without logging (used after unlogged bulk initialisation).
+    pub fn resync_shadow(&mut self) {
+        for a in 0..=u16::MAX { self.shadow[a as usize] = self.sim.mem[a]; }
     }
 
     pub fn kbd_ie(&mut self) -> u8 {
